@@ -17,7 +17,7 @@ func main() {
 		run.Finish()
 		return
 	}
-	r := hx.NewRng(run.Seed)
+	r := hx.NewRng(run.Seed).Fork() // Fork: seeds n and n+1 would otherwise be the same stream shifted by one draw
 	meshgen.FixedCases(run)
 	kinds := append(append([]string{}, meshgen.ExactOps...), meshgen.FrameOps...)
 	// the index-remapping operations get twice the weight of the others
